@@ -292,6 +292,11 @@ func c06Work(c *engine.Ctx) {
 			c.Exec(sp, in, nil)
 			c.Count("exec", 1)
 		})
+		c.ByteSweep([]byte(seed), true, func(in []byte) {
+			c.Exec(sp, in, nil)
+			c.Count("exec", 1)
+			c.Count("byte-sweep", 1)
+		})
 	}
 }
 
